@@ -1,4 +1,4 @@
 From JamV Require Import Model.PvmGo.
 Require Import ExtrOcamlBasic.
 Extraction "model.ml" N.of_nat N.to_nat Z.of_N Z.to_N mk_slice deblob_go djump_go single_initializer_go
-  psi_m_load decode_serialized_values declared alloc_bound_of deblob_bound_of alloc_load alloc_deblob C_BLOB K_FIXED.
+  psi_m_load decode_serialized_values declared alloc_bound_of deblob_bound_of alloc_load alloc_deblob C_BLOB K_FIXED range_ok_go halt_out_len m_has.
